@@ -151,7 +151,7 @@ def clear_fingerprints():
                 shutil.rmtree(os.path.join(fp, d), ignore_errors=True)
 
 
-def ensure_facts(force=False):
+def ensure_facts(force=False, clean=False):
     """Returns the fact directory for /repo's current working tree, building it if needed."""
     os.makedirs(CACHE, exist_ok=True)
     build_tools()
@@ -161,7 +161,7 @@ def ensure_facts(force=False):
         h = tree_hash()
         out = os.path.join(CACHE, "facts", h)
         done = os.path.join(out, "DONE")
-        if os.path.exists(done) and not force:
+        if os.path.exists(done) and not force and (not clean or os.path.exists(os.path.join(out, "CLEAN"))):
             return out
         t0 = time.time()
         log("tree state %s: running pipeline" % h)
@@ -180,7 +180,8 @@ def ensure_facts(force=False):
                 state = json.load(open(marker))
             except Exception:
                 state = {}
-        if state.get("scratch") != scratch_repo or not os.path.isdir(scratch_repo) or state.get("tools") != tools_hash():
+        from_scratch = clean or state.get("scratch") != scratch_repo or not os.path.isdir(scratch_repo) or state.get("tools") != tools_hash()
+        if from_scratch:
             # no trustworthy incremental state: start from scratch
             shutil.rmtree(scratch_repo, ignore_errors=True)
             shutil.rmtree(cur, ignore_errors=True)
@@ -263,6 +264,9 @@ def ensure_facts(force=False):
                 "files": sorted(os.listdir(tmp))}
         with open(os.path.join(tmp, "DONE"), "w") as f:
             json.dump(meta, f)
+        if from_scratch:
+            with open(os.path.join(tmp, "CLEAN"), "w") as f:
+                f.write("facts of this snapshot were produced by a from-scratch pipeline run\n")
         os.rename(tmp, out)
         # keep only the 3 most recent fact dirs
         fd = os.path.join(CACHE, "facts")
